@@ -3,7 +3,7 @@
    [step O d op] is one public editing call, [run_ops O d ops] a whole program. *)
 From LV Require Import Base.Bytes Model.Obj Model.DocQ Model.PageTree Model.Traverse Model.Edit
   Spec.RenumberSpec Spec.AbstractDoc Proofs.EditProofs Proofs.EditProofsEx Proofs.EditProofsTrav
-  Proofs.EditProofsDelete Proofs.EditProofsKF Model.EditV0.
+  Proofs.EditProofsDelete Proofs.EditProofsKF Proofs.EditProofsContent Model.EditV0 Model.Renumber.
 
 (* ------------------------------------------------------------------------------------------ *)
 (* Allocation.  [alloc_ok d]: max_id is at least every object number in use.  [doc_wf d]: the
@@ -139,8 +139,26 @@ Theorem C11_content_indirect_refuted :
              get_page_content O0 (d_objects d') (3, 0)%N = Some (bs "BT ET").
 Proof. exact content_indirect_witness. Qed.
 
-(* outside the class the same call does what the abstract page says (concrete instance; the general statement
-   is tied by correspondence and by the harness verdict after every step, not yet proved) *)
+(* I_content for add_page_contents, outside the class C11-content-indirect (pages that are direct dictionary objects
+   whose Contents is absent, a reference that directly names a stream, or a direct array of such references
+   -- [plain_contents]): for every stream decoder, every document satisfying the allocation invariant and every
+   content, the call succeeds, the abstract page then shows its old content followed by what the new stream
+   decodes to, every other plain page shows what it showed before, and the trailer is unchanged.
+   (change_page_content and the resource operations: not yet proved in general -- harness verdicts + correspondence.) *)
+Theorem C11_add_page_contents_content :
+  forall (decode : dict -> bytes -> bytes) d page pd c,
+    doc_wf d -> alloc_ok d -> (d_max_id d < U32_MAX)%N ->
+    lookup (d_objects d) page = Some (ODict pd) -> plain_contents (d_objects d) pd ->
+    exists d' old,
+      add_page_contents d page c = (d', OOk) /\
+      page_content decode (d_objects d) page = Some old /\
+      page_content decode (d_objects d') page = Some (old ++ decode (new_dict c) c) /\
+      (forall q qd, q <> page -> lookup (d_objects d) q = Some (ODict qd) -> plain_contents (d_objects d) qd ->
+                    page_content decode (d_objects d') q = page_content decode (d_objects d) q) /\
+      d_trailer d' = d_trailer d.
+Proof. exact add_page_contents_plain. Qed.
+
+(* non-vacuity of the hypotheses of C11_add_page_contents_content: a concrete instance *)
 Theorem C11_content_example_partial :
   KnownClass_content_indirect ex_doc (3, 0)%N = false /\
   exists d', step O0 ex_doc (AddPageContents (3, 0)%N (bs "BT ET")) = (d', OOk) /\
@@ -176,5 +194,6 @@ Print Assumptions C11_delete_v0_refuted.
 Print Assumptions C11_resources_shadow_refuted.
 Print Assumptions C11_content_shared_refuted.
 Print Assumptions C11_content_indirect_refuted.
+Print Assumptions C11_add_page_contents_content.
 Print Assumptions C11_content_example_partial.
 Print Assumptions C11_example.
